@@ -86,7 +86,7 @@ def gen(rng, thorough):
     ops += ["C", "L", "Q"]
     if rng.random() < 0.5:
         now += 50
-        ops += ["T %d" % now] + add_some(1) + ["R", "L", "Q"]
+        ops += ["T %d" % now] + add_some(1) + ["R", "L", "Q", "QM"]
     return ops
 
 
@@ -111,6 +111,7 @@ def check(ops, answer):
     files = {}          # last complete listing
     crashed = False
     lastocc = {}          # uid -> its last occurrence
+    limit = {}            # uid -> X-ECHS-MAX-SIMUL as accepted (63: none)
     now = 0
     armed = None          # a cut or fault waiting for the next checkpoint: the victim's uid
     clean = False         # the last checkpoint ran to its end without an injected fault
@@ -137,6 +138,7 @@ def check(ops, answer):
                     if tok.startswith("S|"):
                         owner[uid] = peer
                         lastocc[uid] = max(int(x) for x in tok.split("|")[5].split(","))
+                        limit[uid] = int(tok.split("|")[3])
                     else:
                         owner.pop(uid, None)
         elif w[0] == "L":
@@ -166,6 +168,11 @@ def check(ops, answer):
                 # acknowledged but not yet checkpointed changes are gone with the process: the files are the truth now
                 owner = {x: u for u, (uids, _) in cur.items() for x in uids}
                 crashed = False
+        elif w[0] == "QM":
+            for row in (r for r in g.split(",") if r):
+                uid, _, ms = row.split(":")
+                if uid in limit and int(ms) != limit[uid]:
+                    return "task %s was accepted with the limit %s (63 = none) and runs under %s after the restart" % (uid, limit[uid], ms)
         elif w[0] == "Q":
             rows = [r.split(":") for r in g.split(",") if r]
             table = {r[0]: int(r[1]) for r in rows}
